@@ -254,7 +254,7 @@ def negative_cases(draw):
     return {"kind": kind, "data": b.hex()}
 
 
-def targets(tier):
+def _targets(tier):
     return [
         Target("positive", check_positive, enumerate_=enum_positive, required=["nt:v1-len40", "nt:v16-len2", "nt:witness-version>=1", "nt:program-len-not-20-32"]),
         Target("positive-random", check_positive, strategy=lambda tier: positive_random(), budget={"quick": 3000, "thorough": 60000}),
@@ -263,3 +263,14 @@ def targets(tier):
                required=["nt:pk-wrong-len-for-prefix", "nt:unknown-b58-version", "nt:mut-segwit", "nt:mut-b58", "nt:pk-hybrid", "expect-refuse",
                          "nt:segwit-bad-proglen", "nt:segwit-wrong-const", "nt:segwit-bad-version", "nt:segwit-nonzero-pad"]),
     ]
+
+
+def targets(tier):
+    ts = _targets(tier)
+    if tier == "thorough":
+        # coverage-guided add-on (atheris/libFuzzer through Hypothesis' fuzz_one_input); skipped with a class label if atheris is missing
+        from vf import fuzz
+
+        for name in ['negative']:
+            ts.append(fuzz.campaign_target(PROPERTY, name, campaigns=16, runs=20000))
+    return ts
